@@ -802,3 +802,66 @@ Proof.
     intros p id ir Hin. exact (proj2 (Hgood _ _ _ Hin)).
   - right. exact Hdup.
 Qed.
+
+Theorem generate_total_wf r s :
+  wf_regb r = true -> supportedb r s = true ->
+  (exists m, generate r s (types_equal r) = Ok m /\ exists toks, emit_module s m = Ok toks) \/
+  (exists p, generate r s (types_equal r) = Err (EDuplicatePath p)).
+Proof.
+  intros Hw Hs. destruct (wf_generable r s Hw Hs) as (rank & Hgen).
+  exact (generate_total_types_equal r s rank Hgen).
+Qed.
+
+Theorem resolve_total_wf r s :
+  wf_regb r = true -> supportedb r s = true ->
+  forall id, in_reg r id -> forall parents orig is_field,
+  exists t, resolve_rec r s (fuel0 r) id is_field parents orig = Ok t /\
+            exists toks, tp_tokens (alloc_tokens (s_alloc s)) t = Ok toks.
+Proof.
+  intros Hw Hs. destruct (wf_generable r s Hw Hs) as (rank & Hgen).
+  exact (resolve_total r s rank (proj1 (proj2 Hgen))).
+Qed.
+
+Theorem create_type_ir_total_pinned r s rank :
+  generable r s rank -> forall id t flat, resolve r id = Some t ->
+  exists o, create_type_ir r s t flat = Ok o /\ forall ir, o = Some ir -> ir_no256 ir.
+Proof. intros Hgen id t flat. apply (create_type_ir_total r s rank Hgen). Qed.
+
+(** ** single fault: mixed named / unnamed fields *)
+Lemma fault_mixed_struct r s t flat fs nm :
+  t_def t = TDComposite fs -> path_ident (t_path t) = Some nm -> ident_okb nm = true ->
+  all_named fs || all_unnamed fs = false ->
+  create_type_ir r s t flat = Err EInvalidFields.
+Proof.
+  intros Hd Hp Hn Hm. rewrite create_type_ir_eq, Hd. cbn [is_composite_or_variant negb].
+  rewrite Hp. unfold parse_ident. rewrite Hn. cbn [bind]. unfold create_composite_ir_kind.
+  destruct fs as [|f fs]; [discriminate Hm|]. rewrite Hm. reflexivity.
+Qed.
+
+Lemma variants_ir_mixed r s params v vs2 : forall vs1 unused l1 u1,
+  variants_ir r s params vs1 unused = Ok (l1, u1) ->
+  ident_okb (v_name v) = true -> all_named (v_fields v) || all_unnamed (v_fields v) = false ->
+  variants_ir r s params (vs1 ++ v :: vs2) unused = Err EInvalidFields.
+Proof.
+  induction vs1 as [|w vs1 IH]; intros unused l1 u1 H1 Hn Hm.
+  - cbn [app]. rewrite variants_ir_cons. unfold parse_ident. rewrite Hn. cbn [bind].
+    unfold create_composite_ir_kind. destruct (v_fields v) as [|f fs]; [discriminate Hm|].
+    rewrite Hm. reflexivity.
+  - cbn [app]. rewrite variants_ir_cons in H1 |- *.
+    apply bind_ok in H1 as (vn & Hvn & H1). apply bind_ok in H1 as (ku & Hku & H1).
+    apply bind_ok in H1 as ([l' u'] & Hrest & H1).
+    rewrite Hvn. cbn [bind]. rewrite Hku. cbn [bind].
+    rewrite (IH _ _ _ Hrest Hn Hm). reflexivity.
+Qed.
+
+Lemma fault_mixed_variant r s t flat vs1 v vs2 nm l1 u1 :
+  t_def t = TDVariant (vs1 ++ v :: vs2) -> path_ident (t_path t) = Some nm -> ident_okb nm = true ->
+  variants_ir r s (params_from_scale_info (t_params t)) vs1 (params_from_scale_info (t_params t))
+    = Ok (l1, u1) ->
+  ident_okb (v_name v) = true -> all_named (v_fields v) || all_unnamed (v_fields v) = false ->
+  create_type_ir r s t flat = Err EInvalidFields.
+Proof.
+  intros Hd Hp Hn H1 Hv Hm. rewrite create_type_ir_eq, Hd. cbn [is_composite_or_variant negb].
+  rewrite Hp. unfold parse_ident at 1. rewrite Hn. cbn [bind].
+  rewrite (variants_ir_mixed r s _ v vs2 vs1 _ l1 u1 H1 Hv Hm). reflexivity.
+Qed.
